@@ -62,6 +62,10 @@ var brokenTemplates = []string{
 	"vars {\n portion $por1\n}\nsend [USD 10] (\n source = @world\n destination = { $por1 to @d remaining to @e }\n)\nset_tx_meta(\"k\", $por1 + 1)",
 	"vars {\n account $acc1 = meta(@a, \"acc\")\n monetary $mon1 = balance($acc1, USD)\n}\nsend $mon1 (\n source = $acc1\n destination = @d\n)",
 	"vars {\n monetary $mon1 = balance($acc1, USD)\n account $acc1\n}\nsend $mon1 (\n source = $acc1\n destination = @d\n)",
+	// a variable referenced inside its own origin
+	"vars {\n account $acc1 = meta($acc1, \"acc\")\n}\nsend [USD 1] (\n source = @world\n destination = $acc1\n)",
+	"vars {\n asset $ass1\n monetary $mon1 = balance(@a, $ass1)\n monetary $mon2 = balance(@a, $mon2)\n}\nsend $mon1 (\n source = @world\n destination = @d\n)\nsend $mon2 (\n source = @world\n destination = @d\n)",
+	"vars {\n account $acc1\n account $acc2 = meta($acc1, \"acc\")\n account $acc3 = meta($acc3, \"acc\")\n}\nsend [USD 1] (\n source = $acc2\n destination = $acc3\n)",
 }
 
 func init() {
@@ -89,8 +93,8 @@ func init() {
 			return cases
 		},
 		Bounds: stdBounds(
-			map[string]interface{}{"templates": "13 valid + 47 edited scripts", "declared_types": "at most one declaration deviates from the required type, over all 6 types and all declarations", "values": "numbers and monetary amounts: every integer; other types: one value each; balances symbolic"},
-			map[string]interface{}{"templates": "13 valid + 47 edited scripts", "declared_types": "at most two declarations deviate (all pairs, all 36 type pairs)"}),
+			map[string]interface{}{"templates": "13 valid + 56 edited scripts", "declared_types": "at most one declaration deviates from the required type, over all 6 types and all declarations", "values": "numbers and monetary amounts: every integer; other types: one value each; balances symbolic"},
+			map[string]interface{}{"templates": "13 valid + 56 edited scripts", "declared_types": "at most two declarations deviate (all pairs, all 36 type pairs)"}),
 		Assumptions: []string{"variable values are well-typed for the declared types", "metadata used by meta() origins holds well-formed values under keys k, m, acc, p, s, as", "the experimental overdraft flag is on"},
 		Stubs:       apiStubs, Outside: []string{"scripts outside the template lists", "more than two mis-declared variables at once"},
 	})
